@@ -85,7 +85,7 @@ func (e *schedEngine) Plan(seed uint64, tier string) int {
 
 var scImageOps = []string{"Hash", "HashSHA1", "HashSHA512", "Bytes", "Open", "Signatures", "Verify", "VerifyOther"}
 var scDBOps = []string{"Bytes", "Marshal", "BytesExists", "BytesExistsMiss", "BytesExistsPEM", "SigDataExists", "Exists"}
-var scUpdateOps = []string{"Marshal", "Bytes", "DescMarshal", "DescVerify"}
+var scUpdateOps = []string{"Marshal", "Bytes", "DescMarshal", "DescVerify", "CallerEditsPayload"}
 var scPkcs7Ops = []string{"Verify", "VerifyOther", "HasCertificate"}
 var scAuthcodeOps = []string{"Verify", "VerifyOther"}
 var scListOps = []string{"Bytes", "Exists", "ExistsMiss", "ExistsInList", "CmpHeader"}
@@ -587,11 +587,13 @@ func (e *schedEngine) build(c scCfg, x *X, plane *Plane) (mk func() *scObject) {
 		return func() *scObject {
 			var desc *signature.EFIVariableAuthentication2
 			var upd efivar.Marshallable
+			var mine *mutVal // the caller's own payload object: it goes on living after the update was produced
 			if pv := inBubble(x.T, at.UTC(), "", func() {
 				var err error
 				// payloads of several sizes: a hash list, the empty value that clears a variable, a few bytes
 				payload := [][]byte{refHashDB(0x31, 3), nil, []byte("\x01\x02\x03\x04\x05"), refHashDB(0x32, 1)[:40], refHashDB(0x33, 1)}[c.DB%5]
-				desc, upd, err = signature.SignEFIVariable(efivar.Db, rawVal(payload), pk.Key, pk.Cert)
+				mine = &mutVal{b: append([]byte(nil), payload...)}
+				desc, upd, err = signature.SignEFIVariable(efivar.Db, mine, pk.Key, pk.Cert)
 				if err != nil {
 					harnessf("sched: SignEFIVariable: %v", err)
 				}
@@ -618,6 +620,16 @@ func (e *schedEngine) build(c scCfg, x *X, plane *Plane) (mk func() *scObject) {
 				case "DescVerify":
 					ok, err := desc.Verify(pk.Cert)
 					return scResult([]byte(fmt.Sprint(ok)), err)
+				case "CallerEditsPayload":
+					// not an operation on the update: the caller prepares its next update in the object it once passed as
+					// payload. The update that was handed out is a value of its own and must not notice.
+					o.hmu.Lock()
+					mine.b = append(mine.b, 0x42)
+					for k := range mine.b {
+						mine.b[k] ^= 0x11
+					}
+					o.hmu.Unlock()
+					return scResult(nil, nil)
 				}
 				harnessf("sched: update op %q", op.Op)
 				return nil
